@@ -297,3 +297,6 @@ Fixpoint deps_ops (l : list op) (me next : nat) (own cap : list (nat * nat)) : l
   end.
 Definition deps (p : list op) : list (nat * nat) := fst (fst (deps_ops p 0 1 [] [])).
 Definition acyclic (p : list op) : Prop := exists rank : nat -> nat, forall x y, In (x, y) (deps p) -> rank y < rank x.
+
+(* the domain of the finding: the program waits somewhere for a future created by an enclosing body *)
+Definition foreign_wait (p : list op) : bool := negb (noup p).
